@@ -1,17 +1,19 @@
 // Kani harnesses for harper-ls/src/pos_conv.rs (attached to that module). BOUNDED: every text of
-// length 0..=N over the alphabet {LF, CR, 'a', U+4E2D (3 UTF-8 bytes, 1 UTF-16 unit), U+1F600 (4 bytes, 2 units), U+0301 (combining, 2 bytes)},
+// length 0..=N over the alphabet {LF, CR, 'a', U+4E2D (3 UTF-8 bytes, 1 UTF-16 unit), U+1F600 (4 bytes, 2 units), U+0301 (combining, 2 bytes), U+200B (zero width), U+010A (low byte 0x0A)},
 // every index / span. N is the const generic of each harness body.
 
 fn any_char() -> char {
     let k: u8 = kani::any();
-    kani::assume(k < 6);
+    kani::assume(k < 8);
     match k {
         0 => '\n',
         1 => '\r',
         2 => 'a',
         3 => '\u{4E2D}',
         4 => '\u{1F600}',
-        _ => '\u{0301}',
+        5 => '\u{0301}',
+        6 => '\u{200B}',   // zero-width space: invisible, but one UTF-16 unit like any other BMP character
+        _ => '\u{010A}',   // low byte 0x0A: not a line feed
     }
 }
 
